@@ -272,10 +272,10 @@ Definition acts_libraries (s : state) (rec inside : bool) (x : item) : list (act
             | None => []
             end
           else
-            (* "if recursive: object_collection += parent": iterating a Definition gives the keys
-               of its dictionary (strings), which the loop pops and ignores - nothing is pushed *)
+            (* "if recursive: object_collection.append(parent)" (repaired: was "+= parent", which
+               iterated the keys of the definition's dictionary and pushed nothing useful) *)
             match par s RChildren x with
-            | Some p => mark_lib_of s false p
+            | Some p => mark_lib_of s false p ++ (if rec then [APush (IE p)] else [])
             | None => []
             end
       | Some KPort => push_opt (par s RPorts x)
